@@ -387,8 +387,8 @@ func (m *machine) checkBody(r *simrt.Request, week string) {
 	}
 	for _, wp := range want.Programs {
 		pm, ok := got[wp.Build]
-		if !ok && len(wp.Counters)+len(wp.Stacks) == 0 {
-			continue // a build with nothing to send may be omitted
+		if !ok && (len(wp.Counters)+len(wp.Stacks) == 0 || !wp.PlatformOK) {
+			continue // a build with nothing to send, or on a platform the server would reject, may be omitted
 		}
 		if !ok {
 			m.fail("program-missing", "week %s (config %s, X=%v): approved program build %v is not in the request", week, cfg.Version, x, wp.Build)
